@@ -113,12 +113,14 @@ PROPS = {
         "lean": ["GldapModel.Props.C19", "GldapModel.Props.BindSession"],
         "audit": ["GldapModel/Audit/C19.lean", "GldapModel/Audit/BindSession.lean"],
         "inventory": ["td.Directory.handleBind", "Entry.GetAttributeValues", "Request.GetSimpleBindMessage", "Request.NewBindResponse",
-                      "td.Directory.SetAllowAnonymousBind", "td.Directory.SetUsers", "td.Directory.SetControls", "BindResponse.SetControls", "td.Start", "td.WithDefaults", "td.getOpts", "td.applyOpts", "td.defaults",
+                      "td.Directory.SetAllowAnonymousBind", "td.Directory.SetUsers", "td.Directory.SetControls", "BindResponse.SetControls", "td.Start", "td.WithDefaults", "td.getOpts", "td.applyOpts", "td.defaults", "Request.StartTLS", "td.Directory.handleStartTLS",
                       "newMessage", "newRequest"],
         "streams": [
             {"stream": "tdbind", "n_quick": 20000, "n_thorough": 1500000},
             {"stream": "tdbindwire", "n_quick": 10000, "n_thorough": 800000},
             {"stream": "tdlive", "n_quick": 300, "n_thorough": 6000, "timeout_quick": 900, "timeout_thorough": 6000},
+            # "over plain, TLS and StartTLS connections": binds inside upgraded sessions, also ones that were idle for 11 s (corpus)
+            {"stream": "c13", "n_quick": 4, "n_thorough": 60, "timeout_quick": 900, "timeout_thorough": 6000},
         ],
         "trusted": BER_TRUST,
         "assumptions": ["plain / TLS / StartTLS transports deliver the same bind request to the handler (C13, C18); this check drives the handler in-process through the directory's own mux"],
@@ -138,7 +140,10 @@ PROPS = {
     "C05": {
         "lean": ["GldapModel.Props.C05"],
         "audit": "GldapModel/Audit/C05.lean",
-        "inventory": ["ResponseWriter.Write", "newResponseWriter", "conn.serveRequests", "conn.initConn", "sites.connwriter", "sites.go"],
+        "inventory": ["ResponseWriter.Write", "newResponseWriter", "conn.serveRequests", "conn.initConn", "sites.connwriter", "sites.go",
+                      # what a frame is made of, up to the bytes handed to the connection's writer
+                      "SearchResponseEntry.packet", "SearchResponseDone.packet", "BindResponse.packet", "GeneralResponse.packet",
+                      "ExtendedResponse.packet", "EntryAttribute.encode", "encodeControls", "beginResponse", "addOptionalResponseChildren"],
         "streams": [
             {"stream": "c05", "n_quick": 60, "n_thorough": 3000, "timeout_quick": 600, "timeout_thorough": 6000},
         ],
@@ -262,6 +267,8 @@ PROPS = {
         "streams": [
             {"stream": "ctrl-encode", "n_quick": 20000, "n_thorough": 1500000},
             {"stream": "behera-ctor", "n_quick": 8000, "n_thorough": 500000},
+            # whole requests with 0..20 controls of every kind in every order (what one control leaves behind must not reach the next)
+            {"stream": "decode-valid", "n_quick": 8000, "n_thorough": 400000},
         ],
         "trusted": BER_TRUST + ["go-ldap v3.4.6 DecodeControl is the second, independent reader in the harness; it nil-dereferences on a valueless Behera control, which is therefore read only by the RFC-based Lean reader"],
         "assumptions": ["strconv.FormatInt/ParseInt are modelled at byte level (Proofs/Decimal.lean)"],
